@@ -14,92 +14,98 @@ def drawer_files():
             'nimitz': (os.path.join(IOD, 'nimitz_pte.h'), os.path.join(IOD, 'nimitzStringFile'))}
 
 
-# ---------------------------------------------------------------- independent readers (no regex shared with the repo)
+# ---------------------------------------------------------------- the loaders: Lean model vs the repo's code
+#
+# The three loaders (PTETable._parse_header_file, get_hlog_fields, TraceStringFile.__init__) are modelled in Lean
+# (PelModel/Regex.lean = backtracking matcher with the seven patterns, PelModel/Loaders.lean = the line loops).  The harness
+# reads a file exactly as the repo does (plain open(path) + iteration: text mode, universal newlines, locale encoding),
+# sends the line strings to the driver and compares the answer field by field with what the real loader built.
+# There is no Python re-implementation of the loaders in the harness any more.
 
-def _cstring(line, i):
-    """read a C string literal starting at line[i] == '"'; returns (raw text between quotes, index after)"""
-    assert line[i] == '"'
-    j = i + 1
+def file_lines(path):
+    with open(path) as f:
+        return [line for line in f]
+
+
+def tok_lines(lines):
+    return tlist(lines, tt)
+
+
+def reply_pte_rows(r):
+    """reply of `loadpterows`: [(pattern, fmt, params, file, line)]"""
     out = []
-    while j < len(line):
-        if line[j] == '\\' and j + 1 < len(line) and line[j + 1] == '"':
-            out.append('\\"')
-            j += 2
-        elif line[j] == '"':
-            return ''.join(out), j + 1
-        else:
-            out.append(line[j])
-            j += 1
-    raise ValueError('unterminated string')
-
-
-def read_pte_table(path):
-    """[(pattern, message_format, params)] read with a hand-written scanner"""
-    entries = []
-    in_table = False
-    for line in open(path):
-        st = line.strip()
-        if 'pte_entry_struct' in st and 'static_pte_entry_table' in st and '=' in st:
-            in_table = True
-            continue
-        if in_table and st.startswith('{') and '"The End"' in st and st.replace(' ', '').startswith('{""'):
-            in_table = False
-            continue
-        if not in_table or not st.startswith('{') or '"' not in st:
-            continue
-        try:
-            i = st.index('"')
-            pattern, i = _cstring(st, i)
-            i = st.index('"', i)
-            fmt, i = _cstring(st, i)
-            i = st.index('{', i)
-            j = st.index('}', i)
-            params = [int(ch) for ch in st[i + 1:j] if ch.isdigit()]
-        except ValueError:
-            continue
-        if not pattern:
-            continue
-        entries.append((pattern, fmt.strip().replace('\\"', '"'), params))
-    return entries
-
-
-def read_string_file(path):
-    """[(hash, format, location)]"""
-    out = []
-    for line in open(path):
-        if line.endswith('\n'):
-            line = line[:-1]
-        parts = line.split('||')
-        if len(parts) < 3:
-            continue
-        # the repo's regex is greedy: the format is everything between the first and the LAST '||'
-        h = parts[0].strip()
-        if not h.isdigit() or not h.isascii():
-            continue
-        out.append((int(h), '||'.join(parts[1:-1]).strip(), parts[-1].strip()))
+    for _ in range(r.num()):
+        pat, fmt = r.text(), r.text()
+        params = [r.num() for _ in range(r.num())]
+        out.append((pat, fmt, params, r.text(), r.num()))
     return out
 
 
-def read_hlog_fields(path):
-    out = []
-    inside = False
-    for line in open(path):
-        st = line.strip()
-        if 'struct' in st and 'mex_hlog_field' in st and 'mex_hlog_fields' in st and '=' in st:
-            inside = True
-            continue
-        if inside and st.replace(' ', '') == '};':
-            inside = False
-            continue
-        if inside and st.startswith('{') and '"' in st:
-            a = st.index('{')
-            c = st.index(',', a)
-            size = st[a + 1:c].strip()
-            q1 = st.index('"', c)
-            q2 = st.index('"', q1 + 1)
-            if size in ('1', '2') and q2 > q1 + 1:
-                out.append((st[q1 + 1:q2], int(size)))
-    return out
+def reply_strs(r):
+    return [(r.num(), r.text(), r.text()) for _ in range(r.num())]
+
+
+def reply_flds(r):
+    return [(r.text(), r.num()) for _ in range(r.num())]
+
+
+def real_pte_rows(path):
+    """('ok', rows) or ('raise', exception class name)"""
+    from io_drawer import ilog as il
+    try:
+        es = il.PTETable(path).entries
+    except Exception as e:      # e.g. int() of more than 4300 digits
+        return ('raise', type(e).__name__)
+    return ('ok', [(e.pte_pattern, e.message_format, list(e.params), e.file, e.line) for e in es])
+
+
+def real_strs(path):
+    from io_drawer import trace as tr
+    try:
+        ts = tr.TraceStringFile(path).trace_strings
+    except Exception as e:
+        return ('raise', type(e).__name__)
+    return ('ok', [(t.hash_value, t.message_format, t.location) for t in ts])
+
+
+def real_flds(path):
+    from io_drawer import hlog
+    try:
+        fs = hlog.get_hlog_fields(path)
+    except Exception as e:
+        return ('raise', type(e).__name__)
+    return ('ok', [(f.name, f.size) for f in fs])
+
+
+LOADERS = {'pte': ('loadpterows', reply_pte_rows, real_pte_rows),
+           'strs': ('loadstrs', reply_strs, real_strs),
+           'flds': ('loadhlog', reply_flds, real_flds)}
+
+
+def loader_request(kind, path):
+    """the driver request that runs the Lean loader of `kind` on the lines of the file at `path`"""
+    return '%s %s' % (LOADERS[kind][0], tok_lines(file_lines(path)))
+
+
+def compare_loader(ck, kind, path, reply, label):
+    """Lean loader (reply) against the real loader on the same file, field by field.  Returns the real table (or None)."""
+    _, parse, real = LOADERS[kind]
+    st, val = real(path)
+    ck.count('loader %s: %s' % (kind, 'real raises' if st == 'raise' else 'loaded'))
+    if not reply.ok:
+        # the model declines (outside the modelled subset): counted, never silently accepted as agreement
+        ck.skip('loader %s: %s (real: %s)' % (kind, reply.raw[:30], st if st == 'raise' else 'ok'))
+        return val if st == 'ok' else None
+    model = parse(reply)
+    if st == 'raise':
+        ck.disagree('real %s loader raises %s where the model loads a table' % (kind, val), {'op': 'load-' + kind, 'case': label, 'text': open(path).read()[:4000]})
+        return None
+    if model != val:
+        k = next((i for i in range(min(len(model), len(val))) if model[i] != val[i]), min(len(model), len(val)))
+        ck.disagree('Lean %s loader differs from the real loader' % kind,
+                    {'op': 'load-' + kind, 'case': label, 'text': open(path).read()[:4000], 'first_difference': k,
+                     'model': model[k:k + 2], 'impl': val[k:k + 2], 'model_len': len(model), 'impl_len': len(val)})
+    return val
 
 
 # ---------------------------------------------------------------- synthetic files
@@ -144,3 +150,319 @@ def tok_flds(fields):
 
 def ilog_entry(ts, seq, pte):
     return struct.pack('>HHI', ts, seq, pte)
+
+
+# ---------------------------------------------------------------- adversarial files for the loaders
+
+MUT_CHARS = list('{}"\\,| \t0123456789*\n\r=;.%s') + ['\x0b', '\x0c', '\x1c', '\x85', '\xa0', ' ', '　', '٣', 'é', '||', '\\"', '\r\n', '\x00', '\U0001F600', '\u2028', '\u200b', '\x1e']
+
+PTE_START = 'static struct pte_entry_struct static_pte_entry_table[PTE_TABLE_SIZE] =\n'
+PTE_END = '  { ""        , "The End" }\n'
+HLOG_START = 'static struct mex_hlog_field mex_hlog_fields[MEX_HLOG_FIELD_COUNT] =\n'
+HLOG_END = '};\n'
+
+PTE_LINES = [
+    '  { "0200****", "level = %c%c", {3, 4}, "states.cpp", 254 },\n',
+    '{ "A1", "m", {12}, "f", 1 },\n', '{ "A2", "m", { 1 ,4}, "f", 1 },\n', '{ "A3", "m", {5}, "f", 1 },\n',
+    '{ "A4", "m", {1 2 x 3 0 9}, "f", 1 },\n', '{ "A5", "m", {٣}, "f", 1 },\n', '{ "A6", "m", {é}, "f", 1 },\n',
+    '{ "A7", "say \\"hi\\"", {}, "f", 1 },\n', '{ "A8", "trail\\", {}, "f", 1 },\n', '{ "A9", "trail\\\\", {}, "f", 1 },\n',
+    '{ "B1", "in"side", {}, "f", 1 },\n', '{ "B2", "A\\" , { B", {1}, "file.cpp", 17 },\n', '{ "B2b", "A\\" , { B } x", {1}, "file.cpp", 17 },\n',
+    '{ "B3", "x", {}, "f", 0017 },\n', '{ "B4", "x", {}, "f", +17 },\n', '{ "B5", "x", {}, "f",   17   },\n', '{ "B6", "x", {}, "f", 1_7 },\n',
+    '{ "B7", "x", {}, "f", ' + '1' * 4301 + ' },\n', '{ "B8", "x", {}, "f", ' + '0' * 4300 + ' },\n',
+    '{ "", "x", {}, "f", 1 },\n', '{ "C1" , "x" , {} , "f" , 1 } , \n', '\t{\t"C2",\t"x",{},"f",1},\n', '{"C3","x",{},"f",1},',
+    '{ "C4", "x", {}, "f", 1 }\n', '{ "C5", "x", {}, "f", 1 }, // comment\n', '{ "C6", "x", {}, "f", 1 },\x0c\n', '　{ "C7", "x", {}, "f", 1 },\xa0\n',
+    '{ "C8", "  padded \\" ", {}, "f", 1 },\n', '{ "C9", "x", {}, "f", 1 }, { "C9b", "y", {}, "g", 2 },\n',
+    '{ "D1", "x", {{1}}, "f", 1 },\n', '{ "D2", "x", {1}}, "f", 1 },\n', '{ "D3", "x", {"}, "f", 1 },\n', '{ "D4", "x", {1}, "f"", 1 },\n',
+    '{ "D5", "", {}, "", 1 },\n', '{ "D6", "\\"", {}, "f", 1 },\n', '{ "D7", "\\\\"", {}, "f", 1 },\n', '{ "D8", "a\\"b\\"c\\", {}, "f", 1 },\n',
+    '{ "D9", "  m \x1f", {1,\n2}, "f", 1 },\n', '{ "E1", "x", {1, 2, 3, 4, 4, 3}, "f", 1 },\n', '{ "E*", "\\" , {", {}, "f", 1 },\n',
+    '{ "E3", "x\\" ,{1}, "g", 2 }, \\"", {3}, "f", 1 },\n', '{ "E4", "x", {}, "f", ١٢ },\n', '{ "E5" "x", {}, "f", 1 },\n', '{\n', '};\n', '\n', '',
+    '{ "E6", "' + 'z' * 1500 + '", {}, "f", 1 },\n', ' ' * 1200 + '{ "E7", "x", {}, "f", 1 },' + ' ' * 900 + '\n',
+    '{ "E8", "' + '\\"' * 400 + '", {}, "f", 1 },\n', '{ "E9", "' + '\\"' * 300 + '\\", {}, "f", 1 }\n',
+]
+PTE_STARTS = [
+    PTE_START, 'struct pte_entry_struct static_pte_entry_table[PTE_TABLE_SIZE] = \n', 'static struct pte_entry_struct static_pte_entry_table[] = {\n',
+    'struct   pte_entry_struct\tstatic_pte_entry_table=\n', 'staticstruct pte_entry_struct static_pte_entry_table =\n',
+    ' static  struct pte_entry_struct static_pte_entry_table = { \n', 'static static struct pte_entry_struct static_pte_entry_table =\n',
+    'static struct pte_entry_struct static_pte_entry_table = = {\n', 'static struct pte_entry_struct static_pte_entry_table\n',
+    'static struct pte_entry_struct static_pte_entry_table ={{\n', 'x static struct pte_entry_struct static_pte_entry_table =\n',
+    'static struct pte_entry_struct static_pte_entry_table = {', 'static struct pte_entry_struct static_pte_entry_table = { // c\n',
+    'static struct\x0bpte_entry_struct\xa0static_pte_entry_table=\x85{\x1c\n', 'static struct pte_entry_struct static_pte_entry_tableXYZ = "=" =\n',
+    'struct pte_entry_struct static_pte_entry_table = { "A", "x", {}, "f", 1 },\n', 'STATIC struct pte_entry_struct static_pte_entry_table =\n',
+    'static struct pte_entry_struct  static_pte_entry_table' + '=' * 700 + '\n',
+]
+PTE_ENDS = [
+    PTE_END, '{ "" , "The End" }\n', '{"","The End"} // x\n', '{ "", "The end" }\n', '{ "" , "The End"', '{ ""\n', '{ "", "The End" }, { "Z", "z", {}, "f", 1 },\n',
+    '  { ""  ,  "The End"\n', '{ " ", "The End" }\n', '{ "", "The End" "The End" }\t\n', '\x0c{\x0c""\x0c,\x0c"The End"\x0c\n', '{ "", "The End' + ' ' * 800 + '\n',
+]
+HLOG_LINES = [
+    '  { 1, "hl_isolated_standby" }, \n', '  { 2, "hl_power_ups" },\n', '{ 3, "x3" },\n', '{ 0, "x0" },\n', '{ 12, "x12" },\n', '{ 1, "" },\n', '{1,"a"}\n', '{1,"b"},',
+    '{ 1 , "c" } , \n', '{ 2, "d" },,\n', '{ 2, "e" } ; \n', '{ 2, "f"g" },\n', '{ 2, "h\\"" },\n', '{ ١, "i" },\n', '{ 1, "j" }, // c\n', '\t{\t2\t,\t"k"\t}\t,\t\n',
+    '{ 1, "l" }, { 2, "m" },\n', '{ 1, "n\n', '{ +1, "o" },\n', '{ 1, "p p　" }\x85,\xa0\n', '{\n', '}\n', '} ;\n', ';\n', '\n', '{ 1, "' + 'q' * 2000 + '" },\n',
+    ' ' * 1500 + '{ 2, "r" }' + ' ' * 1000 + ',\n', '{ 2 "s" },\n', '{ 1, "t" }}\n',
+]
+HLOG_STARTS = [
+    HLOG_START, 'struct mex_hlog_field mex_hlog_fields[MEX_HLOG_FIELD_COUNT] =\n', 'static struct mex_hlog_field mex_hlog_fields[] = {\n',
+    'struct mex_hlog_field\n', 'static  struct\tmex_hlog_field  mex_hlog_fields=\n', 'static struct mex_hlog_field mex_hlog_fields = { { 1, "a" },\n',
+    'struct mex_hlog_field mex_hlog_fieldsX==\n', 'static struct nimitz_hlog_field mex_hlog_fields =\n', 'static struct mex_hlog_field mex_hlog_fields = {',
+    'staticstruct mex_hlog_field mex_hlog_fields =\n', 'static struct mex_hlog_field mex_hlog_fields = };\n',
+]
+HLOG_ENDS = [HLOG_END, '}  ;  \n', '};', '} ; // x\n', '}\n', '\t}\t;\x0c\n', '};;\n', '{};\n', '}' + ' ' * 900 + ';\n']
+STR_LINES = [
+    '92602121||I> ADT7470: trace_level = %u||adt7470_fan_ctl.cpp(926)\n', '#FSP_TRACE_v2|||Thu Sep 24 12:55:43 2020|||BUILD:Release\n',
+    '1||a||b||c\n', '2||a|||b\n', '3|||a||b\n', '4||a||b|\n', '5||a||||\n', '6||||\n', '7||| ||\n', '||a||b\n', ' ||a||b\n', '  8  ||  a  ||  b  \n', '+9||a||b\n', '0010||a||b\n',
+    '1 1||a||b\n', '12||a||b', '13||a||b\n\n'[:-1], '14|a||b\n', '15||a|b\n', '16||a\n', '١٦||a||b\n', '17||a||b\r', '18\t||\ta\x0c||\x1cb \n', '19||a%d||b||\n',
+    '20||' + 'x' * 3000 + '||y\n', '2' * 4300 + '||a||b\n', '3' * 4301 + '||a||b\n', '21||a||b||\n', '22|| ||　\n', '23||é||ü\n', '\n', '', '24||a||b\x0b\n', '25||a\x0cb||c\x1dd\n',
+    ' ' * 2000 + '26' + ' ' * 500 + '||a||b\n', '27||' + '||' * 500 + '\n', '28||' + '|' * 1001 + '\n', '0||||\n', '29 ||a|| b\n', '3_0||a||b\n', '31||a||b\n32||c||d\n',
+]
+
+
+def mutate_line(rng, line):
+    """one random edit of a line: drop / insert / replace a character out of the delimiter set, duplicate or cut a piece"""
+    if not line:
+        return rng.choice(MUT_CHARS)
+    k = rng.randrange(7)
+    i = rng.randrange(len(line))
+    if k == 0:
+        return line[:i] + line[i + 1:]
+    if k == 1:
+        return line[:i] + rng.choice(MUT_CHARS) + line[i:]
+    if k == 2:
+        return line[:i] + rng.choice(MUT_CHARS) + line[i + 1:]
+    if k == 3:      # drop / insert one of the delimiters that are there already
+        pos = [j for j, c in enumerate(line) if c in '{}"\\,|=; \t\n']
+        if pos:
+            j = rng.choice(pos)
+            return line[:j] + line[j + 1:] if rng.random() < 0.6 else line[:j] + line[j] + line[j:]
+        return line
+    if k == 4:
+        j = rng.randrange(i, len(line) + 1)
+        return line[:i] + line[j:]
+    if k == 5:
+        j = rng.randrange(i, len(line) + 1)
+        return line[:j] + line[i:j] + line[j:]
+    return line[:i] + rng.choice(['\r\n', '\n', '\r', ' ', '\t', '0', '9', '12', '{ 1 ,4}', '{5}', '\\"', '\\', '"', '||', '*']) + line[i:]
+
+
+def write_raw(path, text):
+    """exact characters; newline='' so that \\r and \\r\\n reach the file and Python's text mode translates them when reading"""
+    with open(path, 'w', newline='') as f:
+        f.write(text)
+
+
+def _structural(rng, start, entries, end, starts, ends):
+    """file-level mutations: duplicate/omit start or end lines, entries before the start, two tables, an end line inside, no final newline, CRLF"""
+    pre = ['// header\n', '#define X 1\n']
+    body = list(entries)
+    k = rng.randrange(12)
+    s1, e1 = rng.choice(starts), rng.choice(ends)
+    if k == 0:
+        lines = pre + [s1, '{\n'] + body + [e1, '};\n']
+    elif k == 1:
+        lines = pre + [s1, s1, '{\n'] + body + [e1, e1]
+    elif k == 2:
+        lines = body[:2] + [s1] + body[2:] + [e1] + body[:1]
+    elif k == 3:
+        lines = [s1] + body + [e1, '\n', rng.choice(starts)] + list(reversed(body)) + [rng.choice(ends)]
+    elif k == 4:
+        mid = len(body) // 2
+        lines = [s1] + body[:mid] + [e1] + body[mid:] + [e1]
+    elif k == 5:
+        lines = body + [e1]
+    elif k == 6:
+        lines = [s1] + body
+    elif k == 7:
+        lines = [e1, s1] + body + [s1] + body[:1] + [e1]
+    elif k == 8:
+        lines = [s1 + body[0]] + body[1:] + [e1]
+    elif k == 9:
+        lines = [s1] + [b.rstrip('\n') for b in body[:1]] + body[1:] + [e1.rstrip('\n')]
+    elif k == 10:
+        lines = [s1, '{\n'] + [rng.choice([s1, e1, b]) for b in body] + [e1]
+    else:
+        lines = pre + [start, '{\n'] + body + [end, '};\n']
+    text = ''.join(lines)
+    r = rng.random()
+    if r < 0.15:
+        text = text.replace('\n', '\r\n')
+    elif r < 0.2:
+        text = text.replace('\n', '\r')
+    elif r < 0.3 and text.endswith('\n'):
+        text = text[:-1]
+    return text
+
+
+def adversarial_files(rng, kind, tmp, n_small, n_whole, shipped):
+    """[(label, path)]: (a) every handcrafted line alone inside a table, (b) small files with line- and file-level mutations,
+    (c) whole shipped files with EVERY line mutated once"""
+    if kind == 'pte':
+        start, end, lines, starts, ends = PTE_START, PTE_END, PTE_LINES, PTE_STARTS, PTE_ENDS
+    elif kind == 'flds':
+        start, end, lines, starts, ends = HLOG_START, HLOG_END, HLOG_LINES, HLOG_STARTS, HLOG_ENDS
+    else:
+        start, end, lines, starts, ends = '', '', STR_LINES, [''], ['']
+    good = lines[0]
+    out = []
+
+    def emit(label, text):
+        path = os.path.join(tmp, 'adv_%s_%d' % (kind, len(out)))
+        write_raw(path, text)
+        out.append((label, path))
+
+    for i, l in enumerate(lines):
+        emit('%s line %d' % (kind, i), start + good + l + ('' if l.endswith('\n') or not l else '\n') + good + end + good)
+        if l and not l.endswith('\n'):
+            emit('%s line %d last' % (kind, i), start + good + l)
+    if kind != 'strs':
+        for i, st in enumerate(starts):
+            emit('%s start %d' % (kind, i), good + st + ('' if st.endswith('\n') else '\n') + good + lines[1] + end + good)
+            emit('%s start-only %d' % (kind, i), st)
+        for i, en in enumerate(ends):
+            emit('%s end %d' % (kind, i), start + good + en + ('' if en.endswith('\n') else '\n') + lines[1] + start + good + en)
+    pool = [l for l in lines if len(l) < 400]
+    ship_lines = [l for p in shipped for l in file_lines(p)]
+    for i in range(n_small):
+        body = [rng.choice(pool) if rng.random() < 0.5 else rng.choice(ship_lines) for _ in range(rng.randrange(1, 8))]
+        body = [mutate_line(rng, b) if rng.random() < 0.6 else b for b in body]
+        if rng.random() < 0.3:
+            body = [mutate_line(rng, b) for b in body]
+        if kind == 'strs':
+            text = ''.join(body)
+            if rng.random() < 0.2:
+                text = text.replace('\n', '\r\n')
+            elif rng.random() < 0.2 and text.endswith('\n'):
+                text = text[:-1]
+        else:
+            text = _structural(rng, start, body, end, [mutate_line(rng, x) if rng.random() < 0.3 else x for x in starts],
+                               [mutate_line(rng, x) if rng.random() < 0.3 else x for x in ends])
+        emit('%s small %d' % (kind, i), text)
+    for i in range(n_whole):
+        p = shipped[i % len(shipped)]
+        ls = file_lines(p)
+        # every line mutated once; start/end lines are kept in one half of the variants so that the table stays open
+        keep = (i // len(shipped)) % 2 == 0
+        ml = []
+        for l in ls:
+            special = ('static_pte_entry_table' in l or 'The End' in l or 'mex_hlog_fields' in l or l.strip() == '};')
+            ml.append(l if (keep and special) else mutate_line(rng, l))
+        emit('%s whole %s %d' % (kind, os.path.basename(p), i), ''.join(ml))
+    return out
+
+
+def run_loader_stream(ck, kind, files):
+    """Lean loader vs real loader on each (label, path); returns the number of files on which both loaded something"""
+    reqs = [loader_request(kind, p) for _, p in files]
+    replies = common.lean_batch(reqs)
+    loaded = 0
+    for (label, path), r in zip(files, replies):
+        val = compare_loader(ck, kind, path, r, label)
+        nontrivial = bool(val)
+        ck.case(key=('load', kind, open(path, newline='').read()) if nontrivial else None,
+                sample={'loader': kind, 'file': label, 'entries': len(val) if val is not None else None})
+        loaded += nontrivial
+    return loaded
+
+
+# ---------------------------------------------------------------- the seven patterns, one line at a time
+
+def repo_patterns():
+    from io_drawer import ilog as il, hlog, trace as tr
+    return [il.TBL_START_RE, il.TBL_ENTRY_RE, il.TBL_END_RE, hlog.HLOG_START_RE, hlog.HLOG_FIELD_RE, hlog.HLOG_END_RE, tr.TraceStringFile.LINE_RE]
+
+
+PATTERN_NAMES = ['TBL_START_RE', 'TBL_ENTRY_RE', 'TBL_END_RE', 'HLOG_START_RE', 'HLOG_FIELD_RE', 'HLOG_END_RE', 'LINE_RE']
+PATTERN_TOKENS = {
+    0: ['static', 'struct', 'pte_entry_struct', 'static_pte_entry_table', ' ', '  ', '\t', '\n', '=', '{', 'x', '[3]', '\x0c', '==', '{{', 'stat', 'ic', '.', '\r', '　'],
+    1: ['{', '}', '"', '\\"', '\\', ',', ' ', '\t', '\n', 'A', '0', '12', '7', ', ', '{}', '""', '" ,', '{ "', '" }', '},', ' , {', 'é', '٣', '\x1f'],
+    2: ['{', '""', ',', '"The End"', ' ', '\t', '\n', '}', 'x', '"', 'The End', '\n\n', '\x0b', ';'],
+    3: ['static', 'struct', 'mex_hlog_field', 'mex_hlog_fields', ' ', '  ', '\t', '\n', '=', '{', 'x', '[3]', 's', '==', '\xa0'],
+    4: ['{', '}', '1', '2', '3', '12', ',', '"', 'a', ' ', '\t', '\n', ',,', '""', '"b"', '},', ' ,', '\x85'],
+    5: ['}', ';', ' ', '\t', '\n', '};', 'x', '\x1c', '}}', ';;'],
+    6: ['||', '|', '0', '17', '4', ' ', '\t', '\n', 'a', 'b%d', '|||', '||||', '\r', '\n\n', '+', 'x', '９', '　'],
+}
+
+
+WS_CHOICES = ['', '', ' ', ' ', '  ', '\t', '\n', '\x0c', '\xa0', '　', ' \t', '\x1f\x85']
+
+
+def structured_line(rng, k):
+    """a line built along the structure of pattern k (so that most of them match), with adversarial fillings"""
+    def w():
+        return rng.choice(WS_CHOICES)
+
+    def w1():
+        return rng.choice([' ', '  ', '\t', ' \t ', '\xa0', ''])
+
+    def some(toks, lo, hi):
+        return ''.join(rng.choice(toks) for _ in range(rng.randrange(lo, hi)))
+    if k in (0, 3):
+        n1, n2 = ('pte_entry_struct', 'static_pte_entry_table') if k == 0 else ('mex_hlog_field', 'mex_hlog_fields')
+        pre = rng.choice(['', w() + 'static' + w1(), w() + 'static' + w1() + 'static' + w1()])
+        return (pre + w() + 'struct' + w1() + n1 + w1() + n2 + some(['[N]', '=', ' ', '{', 'x', '\t', '==', '\r'], 0, 4) + '=' + w()
+                + rng.choice(['', '{', '{{']) + w())
+    if k == 1:
+        msg = some(['a', 'b c', '\\"', '\\', ' ', ',', '{', '}', ' , {', '%d', "'", '\\\\"'] + (['"'] if rng.random() < 0.1 else []), 0, 7)
+        par = some(['1', '2', '12', ' ', ',', ', ', '5', '0', 'x', '"', '{'] + (['}'] if rng.random() < 0.1 else []), 0, 5)
+        return (w() + '{' + w() + '"' + some(['0', 'E', '*', 'f', ' ', ','] + ([''] * 1), 0 if rng.random() < 0.1 else 1, 9) + '"' + w() + ',' + w() + '"' + msg + '"' + w() + ','
+                + w() + '{' + par + '}' + w() + ',' + w() + '"' + some(['f', '.cpp', ' ', ',', '}'], 0, 4) + '"' + w() + ',' + w()
+                + some(list('0123456789'), 0 if rng.random() < 0.1 else 1, 6) + w() + '}' + w() + rng.choice([',', ',', ',', '', ',,']) + w())
+    if k == 2:
+        return w() + '{' + w() + '""' + w() + ',' + w() + '"The End"' + some(['}', ' ', 'x', '"', ',', '\r', '\t'], 0, 5) + w()
+    if k == 4:
+        return (w() + '{' + w() + rng.choice(['1', '2', '1', '2', '3', '12', '']) + w() + ',' + w() + '"' + some(['a', 'b_', ' ', ',', '}', '\\', ';'], 0 if rng.random() < 0.1 else 1, 6)
+                + '"' + w() + '}' + w() + rng.choice([',', ',', '', ',,']) + w())
+    if k == 5:
+        return w() + '}' + w() + ';' + w()
+    return (w() + some(list('0123456789'), 0 if rng.random() < 0.1 else 1, 9) + w() + '||' + some(['a', 'I> x = %u', '|', '||', ' ', '\t', '\r'], 0, 6) + '||'
+            + some(['b.cpp(1)', '|', '||', ' ', 'c'], 0, 4) + rng.choice(['\n', '\n', '', '\n\n', ' \n']))
+
+
+def pattern_lines(rng, k, n, base_lines):
+    """lines aimed at pattern k: random token strings, mutated valid lines, every prefix and suffix of one valid line"""
+    toks = PATTERN_TOKENS[k]
+    out = []
+    for _ in range(n):
+        r = rng.random()
+        if r < 0.5:
+            l = structured_line(rng, k)
+            if rng.random() < 0.3:
+                l = mutate_line(rng, l)
+            out.append(l)
+        elif r < 0.75 or not base_lines:
+            out.append(''.join(rng.choice(toks) for _ in range(rng.randrange(0, 14))))
+        else:
+            l = rng.choice(base_lines)
+            for _ in range(rng.randrange(1, 4)):
+                l = mutate_line(rng, l)
+            if rng.random() < 0.3:
+                i = rng.randrange(len(l) + 1)
+                l = l[:i] + ''.join(rng.choice(toks) for _ in range(rng.randrange(1, 4))) + l[i:]
+            out.append(l)
+    if base_lines:
+        l = base_lines[0]
+        out += [l[:i] for i in range(len(l) + 1)] + [l[i:] for i in range(len(l) + 1)]
+    return [l for l in out if len(l) < 3000]
+
+
+def run_pattern_stream(ck, ks, rng, n, base):
+    """`pattern.fullmatch(line)` (None-ness and groups()) of the repo's compiled patterns against the Lean matcher on the Lean ASTs"""
+    pats = repo_patterns()
+    reqs, meta = [], []
+    for k in ks:
+        for l in pattern_lines(rng, k, n, base.get(k, [])):
+            reqs.append('regroups %d %s' % (k, tt(l)))
+            meta.append((k, l))
+    matched = 0
+    for (k, l), r in zip(meta, common.lean_batch(reqs)):
+        m = pats[k].fullmatch(l)
+        real = None if m is None else list(m.groups())
+        if r.num() == 0:
+            model = None
+        else:
+            model = [(r.text() if r.num() else None) for _ in range(r.num())]
+        ck.case(key=('re', k, l) if real is not None else None, sample={'pattern': PATTERN_NAMES[k], 'line': l[:80]})
+        ck.count('%s: %s' % (PATTERN_NAMES[k], 'match' if real is not None else 'no match'))
+        matched += real is not None
+        if model != real:
+            ck.disagree('Lean matcher and re disagree on %s.fullmatch' % PATTERN_NAMES[k],
+                        {'op': 'fullmatch', 'case': PATTERN_NAMES[k], 'text': l, 'model': model, 'impl': real})
+    return matched
